@@ -239,6 +239,7 @@ class PredEval:
         raise Anchor("unrecognised opcode pattern %s" % show(pat))
 
     def predicate(self, name):
+        """Opcode set of a predicate, by evaluating its body for each of the (finitely many) opcodes."""
         if name in self._cache:
             return self._cache[name]
         f = self.fns.get(name)
@@ -248,63 +249,171 @@ class PredEval:
         if len(params) != 1:
             raise Anchor("predicate %s does not take exactly one argument" % name)
         var = params[0][0]
-        body = f["body"]
-        stmts = body[1]
-        if len(stmts) != 1 or stmts[0][0] != "expr":
-            raise Anchor("predicate %s has a body that is not a single expression" % name)
         self._cache[name] = None  # recursion guard
-        s = self.eval(stmts[0][1], var)
-        self._cache[name] = s
-        return s
+        res = set()
+        for op in self.ops:
+            v = self.block(f["body"], {var: ("op", op)})
+            if not isinstance(v, bool):
+                raise Anchor("predicate %s does not evaluate to a boolean for Op%s: %r" % (name, op, v))
+            if v:
+                res.add(op)
+        self._cache[name] = res
+        return res
 
-    def eval(self, e, var):
+    def block(self, b, env):
+        env = dict(env)
+        r = None
+        for s in b[1]:
+            if s[0] == "local":
+                if s[1][0] != "p_ident" or s[3] is None:
+                    raise Anchor("unrecognised let in predicate: %s" % show(s[1]))
+                env[s[1][1]] = self.eval(s[3], env)
+                r = None
+            elif s[0] == "expr":
+                r = self.eval(s[1], env)
+                if s[2]:
+                    r = None
+            else:
+                raise Anchor("unrecognised statement in predicate")
+        return r
+
+    def num(self, v):
+        if isinstance(v, tuple) and v[0] == "op":
+            return self.ops[v[1]]
+        if isinstance(v, int) and not isinstance(v, bool):
+            return v
+        raise Anchor("not a number in predicate: %r" % (v,))
+
+    def eval(self, e, env):
         k = e[0]
-        if k == "binary" and e[1] in ("||", "&&"):
-            a = self.eval(e[2], var)
-            b = self.eval(e[3], var)
-            return (a | b) if e[1] == "||" else (a & b)
-        if k == "binary" and e[1] in ("==", "!="):
-            l, r = e[2], e[3]
-            if path_of(l) != var:
-                l, r = r, l
-            if path_of(l) != var:
-                raise Anchor("comparison not on the opcode argument: %s" % show(e))
-            o = self.resolve_op(path_of(r))
-            if o is None:
-                raise Anchor("comparison with a non-opcode: %s" % show(e))
-            return {o} if e[1] == "==" else set(self.ops) - {o}
+        if k == "block":
+            return self.block(e, env)
+        if k == "lit":
+            if e[1] == "bool":
+                return bool(e[2])
+            if e[1] == "int":
+                return int(e[2])
+            raise Anchor("literal %s in predicate" % show(e))
+        if k == "path":
+            p = e[1]
+            if p in env:
+                return env[p]
+            o = self.resolve_op(p)
+            if o is not None:
+                return ("op", o)
+            raise Anchor("unknown name %s in predicate" % p)
+        if k == "ref" or (k == "unary" and e[1] == "*"):
+            return self.eval(e[2], env)
         if k == "unary" and e[1] == "!":
-            return set(self.ops) - self.eval(e[2], var)
+            v = self.eval(e[2], env)
+            if not isinstance(v, bool):
+                raise Anchor("negation of a non-boolean in predicate")
+            return not v
+        if k == "cast":
+            v = self.eval(e[1], env)
+            if e[2] in ("u32", "u16", "usize", "u64", "i32", "i64", "spirv::Word", "Word"):
+                n = self.num(v)
+                if e[2] == "u16":
+                    n &= 0xffff
+                return n
+            raise Anchor("cast to %s in predicate" % e[2])
+        if k == "binary":
+            op = e[1]
+            if op in ("||", "&&"):
+                a = self.eval(e[2], env)
+                if not isinstance(a, bool):
+                    raise Anchor("non-boolean operand in predicate: %s" % show(e[2]))
+                if (op == "||" and a) or (op == "&&" and not a):
+                    return a
+                b = self.eval(e[3], env)
+                if not isinstance(b, bool):
+                    raise Anchor("non-boolean operand in predicate: %s" % show(e[3]))
+                return b
+            a, b = self.eval(e[2], env), self.eval(e[3], env)
+            if op in ("==", "!="):
+                if isinstance(a, tuple) and isinstance(b, tuple) and a[0] == "op" and b[0] == "op":
+                    return (a[1] == b[1]) == (op == "==")
+                if isinstance(a, bool) and isinstance(b, bool):
+                    return (a == b) == (op == "==")
+                return (self.num(a) == self.num(b)) == (op == "==")
+            if op in ("<", "<=", ">", ">="):
+                x, y = self.num(a), self.num(b)
+                return {"<": x < y, "<=": x <= y, ">": x > y, ">=": x >= y}[op]
+            if op in ("+", "-", "&", "|", "^", ">>", "<<"):
+                x, y = self.num(a), self.num(b)
+                return {"+": x + y, "-": x - y, "&": x & y, "|": x | y, "^": x ^ y, ">>": x >> y, "<<": (x << y) & 0xffffffff}[op]
+            raise Anchor("operator %s in predicate" % op)
+        if k == "range":
+            lo = self.num(self.eval(e[1], env)) if e[1] is not None else 0
+            hi = self.num(self.eval(e[2], env)) if e[2] is not None else 2 ** 32
+            return ("range", lo, hi if e[3] else hi - 1)
+        if k == "mcall":
+            if e[2] == "contains" and len(e[3]) == 1:
+                r = self.eval(e[1], env)
+                if isinstance(r, tuple) and r[0] == "range":
+                    x = self.num(self.eval(e[3][0], env))
+                    return r[1] <= x <= r[2]
+            raise Anchor("method call %s in predicate" % show(e)[:80])
+        if k == "if" and e[1][0] != "let":
+            c = self.eval(e[1], env)
+            if not isinstance(c, bool):
+                raise Anchor("non-boolean condition in predicate")
+            if c:
+                return self.eval(e[2], env)
+            if e[3] is None:
+                raise Anchor("if without else in predicate")
+            return self.eval(e[3], env)
         if k == "match":
-            if path_of(e[1]) != var:
-                raise Anchor("match not on the opcode argument: %s" % show(e[1]))
-            res = set()
-            seen = set()
+            v = self.eval(e[1], env)
             for pat, guard, body in e[2]:
+                if not self.pmatch(pat, v):
+                    continue
                 if guard is not None:
-                    raise Anchor("guarded arm in predicate")
-                ops = self.pat_ops(pat) - seen
-                seen |= ops
-                val = body
-                if is_node(val) and val[0] == "lit" and val[1] == "bool":
-                    if val[2]:
-                        res |= ops
-                else:
-                    raise Anchor("predicate arm body is not a boolean literal: %s" % show(val))
-            return res
+                    g = self.eval(guard, env)
+                    if not isinstance(g, bool):
+                        raise Anchor("non-boolean guard in predicate")
+                    if not g:
+                        continue
+                return self.eval(body, env)
+            raise Anchor("no arm matches in predicate match")
         if k == "call":
             p = path_of(e[1])
-            if p and len(e[2]) == 1 and path_of(e[2][0]) == var:
+            if p and len(e[2]) == 1:
                 n = p.split("::")[-1]
-                r = self.predicate(n)
-                if r is None:
-                    raise Anchor("recursive predicate %s" % n)
-                return r
-        if k == "lit" and e[1] == "bool":
-            return set(self.ops) if e[2] else set()
-        if k == "block" and len(e[1]) == 1 and e[1][0][0] == "expr":
-            return self.eval(e[1][0][1], var)
+                if n in self.fns:
+                    a = self.eval(e[2][0], env)
+                    if isinstance(a, tuple) and a[0] == "op":
+                        r = self.predicate(n)
+                        if r is None:
+                            raise Anchor("recursive predicate %s" % n)
+                        return a[1] in r
+        if k == "return" and e[1] is not None:
+            raise Anchor("early return in predicate (not supported)")
         raise Anchor("unrecognised predicate expression: %s" % show(e)[:120])
+
+    def pmatch(self, pat, v):
+        k = pat[0]
+        if k == "p_wild":
+            return True
+        if k == "p_or":
+            return any(self.pmatch(c, v) for c in pat[1])
+        if k in ("p_path", "p_ident"):
+            o = self.resolve_op(path_of(pat))
+            if o is None:
+                if k == "p_ident":
+                    raise Anchor("binding pattern %s in predicate match" % show(pat))
+                raise Anchor("pattern %s does not name an opcode" % show(pat))
+            return isinstance(v, tuple) and v[0] == "op" and v[1] == o
+        if k == "p_lit":
+            return self.num(v) == int_of(pat)
+        if k == "p_range":
+            x = self.num(v)
+            lo = int_of(pat[1]) if pat[1] is not None else 0
+            hi = int_of(pat[2]) if pat[2] is not None else 2 ** 32
+            if lo is None or hi is None:
+                raise Anchor("range pattern bound in predicate")
+            return lo <= x <= (hi if pat[3] else hi - 1)
+        raise Anchor("unrecognised pattern in predicate: %s" % show(pat))
 
 
 def predeval(ctx):
